@@ -26,13 +26,13 @@ _replay_cache = {}
 
 def replay(prop, ob, kind, role):
     """one native run per (replay kind, role): several paths/entry points with the same role share it"""
-    if kind.startswith("probe:") and (kind, role) in _replay_cache:
+    if kind.startswith(("probe:", "gatedprobe:")) and (kind, role) in _replay_cache:
         rep, out = _replay_cache[(kind, role)]
         path = vlib.write_replay(prop, {"property": prop, "obligation": ob.name, "role": role, "detail": ob.detail,
                                         "values": ob.cex, "replay": kind, "source_digest": vlib.src_digest()})
         return rep, path, out
     rep, path, out = _replay(prop, ob, kind, role)
-    if kind.startswith("probe:") and rep is not None:
+    if kind.startswith(("probe:", "gatedprobe:")) and rep is not None:
         _replay_cache[(kind, role)] = (rep, out)
     return rep, path, out
 
@@ -54,6 +54,11 @@ def _replay(prop, ob, kind, role):
     if kind == "crash":
         import crashplay
         rep, out = crashplay.crash_replay(dict(ob.cex or {}))
+        return rep, path, out
+    if kind.startswith("gatedprobe:"):
+        # a lock probe at the system-call layer (interposed unlink/rename + gated parking_lot), see replay_gated.rs
+        import gated
+        rep, _, out = gated.run_gated(prop, dict(ob.cex or {}, probe=kind), test=kind.split(":", 1)[1])
         return rep, path, out
     if kind.startswith("probe:"):
         test = kind.split(":", 1)[1]
